@@ -247,6 +247,20 @@ def run_case(c):
         charges = hg.chain_charges(chains_d, L, oid_id)
         if charges is not None:
             check_mpo(fail, qual, graph, gp, L, charges, rng, oid_id)
+        # the library's own dense meaning of the graph (OpGraph.as_matrix), operators of mixed entry kinds
+        if L <= 4:
+            try:
+                ids = sorted({o for w in gp for o in w} | {o for e in graph.edges.values() for o, _ in e.opics} | {oid_id})
+                r_ = np.random.default_rng(c['seed'] % 1000 + 3)
+                opm = {o: (np.identity(2) if o == oid_id else (r_.standard_normal((2, 2)) + 1j * r_.standard_normal((2, 2)) if (o + c['seed']) % 2 else r_.standard_normal((2, 2)))) for o in ids}
+                refm = hg.poly_dense(gp, opm, L, 2)
+                for direction in (1, 0):
+                    mm = np.asarray(graph.as_matrix(opm, direction))
+                    if mm.shape != refm.shape or not np.allclose(mm, refm, atol=1e-9 * max(1.0, float(np.linalg.norm(refm)))):
+                        fail('dense', f'OpGraph.as_matrix(direction={direction}) has shape {mm.shape} / deviates from the symbolic meaning; chains={chains_d}', f'OpGraph.as_matrix:dense{qual}')
+                        break
+            except Exception as e:
+                fail('dense', f'OpGraph.as_matrix raised {type(e).__name__}: {e}; chains={chains_d}', f'OpGraph.as_matrix:returns{qual}')
     if not fails and len(chains_d) >= 2 and c['seed'] % 4 == 0:
         # history: change coefficients on the *same* OpChain objects (switch one term off or on, rescale another) and compile again
         try:
